@@ -60,8 +60,11 @@ SplitTarget(t) ==
   IN [ path |-> SubSeq(pre, 1, q - 1), query |-> SubSeq(pre, q + 1, Len(pre)), frag |-> SubSeq(t, f + 1, Len(t)) ]
 
 \* ------------------------------------------------------------------- host
-HostByte(a, b) == CASE a = "C" /\ b = "3" -> "<C3>" [] a = "A" /\ b = "9" -> "<A9>"
-                    [] a = "2" /\ b = "5" -> "%" [] a = "4" /\ b = "1" -> "A" [] OTHER -> "?"
+\* hex digits are case-insensitive; the decoded byte keeps ITS case (%45 is 'E', %65 is 'e')
+HostByte(a0, b0) == LET a == Lower(a0)  b == Lower(b0) IN
+                    CASE a = "c" /\ b = "3" -> "<C3>" [] a = "a" /\ b = "9" -> "<A9>"
+                      [] a = "2" /\ b = "5" -> "%" [] a = "4" /\ b = "1" -> "A"
+                      [] a = "4" /\ b = "5" -> "E" [] a = "6" /\ b = "5" -> "e" [] OTHER -> "?"
 IsHex(c) == HexVal(Lower(c)) < 16
 RECURSIVE HostDec(_)
 HostDec(s) == IF s = <<>> THEN <<>>
@@ -72,17 +75,18 @@ HostDec(s) == IF s = <<>> THEN <<>>
 \* RFC 3986 3.2.2 / RFC 6874 validity of host[:port] for the shapes enumerated
 IsDigit(c) == c \in {"0", "1", "2", "3", "4", "5", "6", "7", "8", "9"}
 RECURSIVE EscapesOK(_, _)
-\* in a host an escape may only stand for a non-ASCII byte (or be %25 inside a zone)
+\* in a reg-name an escape may only stand for a non-ASCII byte; inside an RFC 6874 zone
+\* any host-legal byte may be written as an escape (the menus only use letters and %25)
 EscapesOK(s, zone) ==
   IF s = <<>> THEN TRUE
   ELSE IF s[1] = "%" THEN
          /\ Len(s) >= 3 /\ IsHex(s[2]) /\ IsHex(s[3])
-         /\ (HexVal(Lower(s[2])) >= 8 \/ (zone /\ s[2] = "2" /\ s[3] = "5"))
+         /\ (HexVal(Lower(s[2])) >= 8 \/ zone)
          /\ EscapesOK(SubSeq(s, 4, Len(s)), zone)
        ELSE EscapesOK(Tail(s), zone)
 PortOK(p) == p = <<>> \/ (p[1] = ":" /\ \A i \in 2..Len(p) : IsDigit(p[i]))
 IPv6Body(s) == \* the bodies used by the vectors
-  s \in { <<":", ":", "1">>, <<"f", "e", "8", "0", ":", ":", "1">> }
+  LowerSeq(s) \in { <<":", ":", "1">>, <<"f", "e", "8", "0", ":", ":", "1">> }
 HostPortOK(hp) ==
   IF hp # <<>> /\ hp[1] = "["
   THEN LET c == LastIdx(hp, "]", Len(hp)) IN
